@@ -269,8 +269,8 @@ def m_queue_policies(seed):
     for k, p in pols.items():
         servers.append(Server(f"srv-{k}", concurrency=1, service_time=ExponentialLatency(0.02),
                               queue_policy=p, downstream=sink))
-    src = Source.poisson(rate=60.0, target=fanout, stop_after=1.5, name="src")
-    sim = Simulation(sources=[src], entities=[fanout, *servers, sink], end_time=Instant.from_seconds(5.0))
+    src = Source.poisson(rate=50.0, target=fanout, stop_after=0.8, name="src")
+    sim = Simulation(sources=[src], entities=[fanout, *servers, sink], end_time=Instant.from_seconds(4.0))
     return Model(sim, [src, fanout, *servers, sink])
 
 
@@ -908,7 +908,7 @@ def m_primary_backup(seed):
             net.add_bidirectional_link(primary, b, _random_link(f"link-{b.name}"))
         w = Script(f"writer-{tag}", _writer(lambda s, p=primary: p, seed))
         writers.append(w)
-        srcs.append(Source.poisson(rate=60.0, target=w, event_type="NewWrite", stop_after=0.6, name=f"src-{tag}"))
+        srcs.append(Source.poisson(rate=45.0, target=w, event_type="NewWrite", stop_after=0.5, name=f"src-{tag}"))
         ents += [w, primary, *backups, net, ps, *bss]
     sim = Simulation(start_time=Instant.Epoch, duration=2.0, sources=srcs, entities=ents)
     return Model(sim, [*srcs, *ents], extra=lambda: [w.notes for w in writers])
@@ -1101,8 +1101,8 @@ def m_load_balancers(seed):
 
     fanout = Script("fanout", fan)
     ctl = Script("ctl", lambda self, ev: [lb.mark_unhealthy(lb.all_backends[0]) for lb in lbs[1:]] and None)
-    src = Source.poisson(rate=60.0, target=fanout, event_type="tick", stop_after=0.6, name="src")
-    sim = Simulation(sources=[src], entities=[fanout, ctl, *ents], end_time=Instant.from_seconds(1.5))
+    src = Source.poisson(rate=50.0, target=fanout, event_type="tick", stop_after=0.45, name="src")
+    sim = Simulation(sources=[src], entities=[fanout, ctl, *ents], end_time=Instant.from_seconds(1.2))
     sim.schedule(at(0.3, ctl, "degrade"))
     ev0 = hc.start()
     sim.schedule(ev0 if isinstance(ev0, (Event, list)) else [])
